@@ -24,7 +24,10 @@ Inductive c33case :=
 | CPStress (writer_closes : bool) (ws : list (bytes * obs)) (rs : list (N * obs))
 | CLn (ops : list (lop * lobs * N)) (dials : list (N * bool * bool))
 | CLnStress (dials : list (N * bool)) (accepts : list (option N)) (post : list bool)
-| CCaps (pipe_cap ln_cap : N).
+| CCaps (pipe_cap ln_cap : N)
+(* `trials` runs of reader-in-Read vs peer Write(written);Close() with a pseudo-random spin; the recorded trials are every
+   failing one (at most 5) and the first good ones: (trial number, spin, the reader's Read results) *)
+| CCloseRace (trials : N) (written : bytes) (recorded : list (N * N * list (N * obs))).
 
 (* ---------------- equality on observables ---------------- *)
 Definition wres_eqb (a b : wres) : bool :=
@@ -249,6 +252,9 @@ Definition corr_ok (c : c33case) : bool :=
   | CLn ops dials => ln_corr linit (acc_started ops) (started ops) ops dials
   | CLnStress d a p => lstress_corr d a p
   | CCaps pc lc => (pc =? chan_cap) && (lc =? conns_cap) && forallb (fun z => Z.to_N z =? pc) npc_ints
+  (* the invariant eof_ok of Proof/PipeProof.v (an EOF is returned only when everything written has been read), evaluated
+     on the concurrent run: both picks of the blocking select are covered by it *)
+  | CCloseRace _ w rec => forallb (fun t : N * N * list (N * obs) => close_race_ok w (snd t)) rec
   end.
 
 Definition prop_ok (c : c33case) : bool :=
@@ -258,4 +264,5 @@ Definition prop_ok (c : c33case) : bool :=
   | CLn ops dials => listener_ok ops dials
   | CLnStress d a p => lstress_ok d a p
   | CCaps _ _ => true
+  | CCloseRace _ w rec => forallb (fun t : N * N * list (N * obs) => close_race_ok w (snd t)) rec
   end.
